@@ -117,6 +117,9 @@ func (ex *executor) load(st *state, a *Addr) Value {
 			AddFact(p, App("spec:plainErr#0", BoolSort, IntC(errStringTag), p))
 			return Value{T: a.Root, C: []*Term{IntC(errStringTag), p}}
 		}
+		if c, ok := ex.eng.constGlob[a.Glob]; ok {
+			return ex.constVal(c)
+		}
 	}
 	if a.Kind == "cell" {
 		v, ok := st.cells[a.Cell]
